@@ -3,7 +3,7 @@ from bounded import harness, enumchecks, gen
 from bounded.corpus import corpus
 
 LABELS = ['single-3', 'nested-2', 'theory-example', 'inc-opt-opt-1', 'inc-nested-0', 'con-LINKED-perm-2x3',
-          'forced-linked-then-conditional', 'conn-perm-2x1-0', 'conn-cond-0', 'conn2-perm', 'conn2-second-conditional',
+          'forced-linked-then-conditional', 'conn-perm-2x1-0', 'conn-cond-0', 'conn2-perm', 'conn2-second-conditional', 'conn3-perm', 'conn3-middle-conditional',
           'dv-3', 'met-1']
 
 
@@ -17,6 +17,6 @@ def run(tier='quick', seed=0):
     results = harness.run_pool('bounded.drivers.C05', 'member', members, tier, seed)
     return harness.aggregate(
         results,
-        rule='one evaluation = comparison of the full observable behaviour (decode of up to 8 vectors with create=True/False: corrected vector, activeness, architecture, stored metric values) with a fresh processor after one history prefix; non-trivial = distinct (graph, encoder, history prefix)',
+        rule='one evaluation = comparison of the full observable behaviour (decode of up to 8 vectors with create=True/False: corrected vector, activeness, architecture, stored metric values) with processors that have served nothing (one per decode) after one history prefix; non-trivial = distinct (graph, encoder, history prefix)',
         bound=f'{len(LABELS)} graphs x 2 encoders; histories over decode(4 vectors, create T/F), enumerate, statistics, mutate returned instance, pickle round trip, fix/free (complete encoder): all sequences of length 2 (quick) / 3 (thorough)',
         assumptions=['hash-seed / cross-process clause is only covered by the thorough configuration sweep'], exhaustive=True)
